@@ -512,7 +512,7 @@ def units(tier, seed):
         mod = 8 if full else 4
         for rem in range(mod):
             us.append({'kind': 'single', 'must': True, 'service': name, 'full': full, 'mod': mod, 'rem': rem})
-    n = 12000 if full else 1600
+    n = 12000 if full else 4000
     for k in range(n):
         us.append({'kind': 'batch', 'seed': seed, 'start': k * 25, 'count': 25})
     return us
